@@ -20,6 +20,9 @@ pub mod sc {
     /// positioned on a readable byte (the terminating NUL has not been consumed)
     pub open spec fn live(s: Scanner) -> bool { wf(s) && s.ofs < s.buf@.len() }
     pub open spec fn cur(s: Scanner) -> u8 { s.buf@[s.ofs as int] }
+    pub open spec fn settled_at(buf: Seq<u8>, k: int) -> bool { !(k > 0 && k < buf.len() && buf[k] == 10u8 && buf[k - 1] == 13u8) }
+    /// the parser's position invariant between tokens
+    pub open spec fn ok(s: Scanner) -> bool { live(s) && settled(s) }
     pub open spec fn tok(buf: Seq<u8>, a: int, b: int) -> Seq<u8> { buf.subrange(a, b) }
     /// where back() lands when called at offset o (> 0)
     pub open spec fn back_to(buf: Seq<u8>, o: int) -> int { if o >= 2 && buf[o - 1] == 10u8 && buf[o - 2] == 13u8 { o - 2 } else { o - 1 } }
